@@ -28,10 +28,10 @@ RECURSIVE SumSeq(_)
 SumSeq(q) == IF q = <<>> THEN 0 ELSE Head(q) + SumSeq(Tail(q))
 
 (* ---- certificates ---- *)
-SegCertOK(e, g) == IoOK(g.tio, g.read, e.tps) /\ CpuOK(g.tcpu, g.law, e.cpus, g.bnum, g.bden, e.tps)
+SegCertOK(e, g) == IoOK(g.tio, g.read, e.tps) /\ CpuOK(g.tcpu, g.law, e.c2, g.bnum, g.bden, e.tps)
 SegIoLo(e, g) == IF IoBand(g.tio, g.read, e.tps) THEN g.tio - 1 ELSE g.tio
-SegCpuLo(e, g) == IF CpuBandLo(g.tcpu, g.law, e.cpus, g.bnum, g.bden, e.tps) THEN g.tcpu - 1 ELSE g.tcpu
-SegCpuHi(e, g) == IF CpuBandHi(g.tcpu, g.law, e.cpus, g.bnum, g.bden, e.tps) THEN g.tcpu + 1 ELSE g.tcpu
+SegCpuLo(e, g) == IF CpuBandLo(g.tcpu, g.law, e.c2, g.bnum, g.bden, e.tps) THEN g.tcpu - 1 ELSE g.tcpu
+SegCpuHi(e, g) == IF CpuBandHi(g.tcpu, g.law, e.c2, g.bnum, g.bden, e.tps) THEN g.tcpu + 1 ELSE g.tcpu
 SegBanded(e, g) == SegIoLo(e, g) # g.tio \/ SegCpuLo(e, g) # g.tcpu \/ SegCpuHi(e, g) # g.tcpu
 OpLo(e, op) == Max(1, SumSeq([k \in 1..Len(op.segs) |-> SegIoLo(e, op.segs[k]) + SegCpuLo(e, op.segs[k])]))
 OpHi(e, op) == Max(1, SumSeq([k \in 1..Len(op.segs) |-> op.segs[k].tio + SegCpuHi(e, op.segs[k])]))
